@@ -43,6 +43,31 @@ pub fn ensure_installed() {
     });
 }
 
+/// One-time lazy initialisation inside revm / alloy / grevm (precompile tables per hardfork, instruction
+/// tables, ...) builds hash containers, and building a hash container draws from the deterministic
+/// per-thread seed counters. If that happened in the middle of a measured run, the run would see other
+/// hasher seeds (other iteration orders, hence another schedule) than the same case in a process where
+/// the initialisation had already happened - in particular than its own replay in a fresh process.
+/// So every process first executes a small block on every hardfork three ways (stock revm, Grevm's
+/// sequential path, one simulated parallel run); `selfcheck determinism` re-runs cases as the only case
+/// of a fresh process to detect anything this misses.
+pub fn warm_up() {
+    static INIT: Once = Once::new();
+    ensure_installed();
+    INIT.call_once(|| {
+        use crate::workload::{self, GenOptions, Profile};
+        for (i, spec) in crate::scenario::ALL_SPECS.iter().enumerate() {
+            for profile in [Profile::Mixed, Profile::Precompile] {
+                let opts = GenOptions { profile, max_txs: 3, max_workers: 2, two_blocks: false, specs: vec![*spec] };
+                let scenario = std::sync::Arc::new(workload::generate(0x77a2_0000 + i as u64, &opts));
+                let sched = crate::checks::sched_for(1, i as u64, crate::checks::SchedMode::Strict);
+                let _ = crate::oracle::run_relation_case(&scenario, &sched, None, &crate::oracle::PipelineWant::default());
+                let _ = crate::oracle::run_pipeline_case(&scenario, &sched, None, &crate::oracle::PipelineWant::default());
+            }
+        }
+    });
+}
+
 struct Warmup(bool);
 
 impl shuttle_engine::scheduler::Scheduler for Warmup {
